@@ -72,6 +72,100 @@ def unfx(f):
 
 
 # --------------------------------------------------------------------------------------------
+# compact storage of recorded series (a thorough run holds millions of recorded samples until TLC has judged them)
+# --------------------------------------------------------------------------------------------
+from array import array  # noqa: E402
+
+
+class Limbs:
+    """Read-only sequence of limb triples [s, hi, lo], 24 bytes per sample instead of ~200 as nested lists.
+    Behaves like a list of lists for reading, compares equal to one, serialises to JSON as one."""
+    __slots__ = ("a",)
+
+    def __init__(self, triples=(), _a=None):
+        self.a = _a if _a is not None else array("q", [v for t in triples for v in t])
+
+    def __len__(self):
+        return len(self.a) // 3
+
+    def __getitem__(self, i):
+        if isinstance(i, slice):
+            return [self[j] for j in range(*i.indices(len(self)))]
+        if i < 0:
+            i += len(self)
+        if not 0 <= i < len(self):
+            raise IndexError(i)
+        return list(self.a[3 * i:3 * i + 3])
+
+    def __iter__(self):
+        a = self.a
+        for i in range(0, len(a), 3):
+            yield [a[i], a[i + 1], a[i + 2]]
+
+    def tolist(self):
+        return list(self)
+
+    def __eq__(self, other):
+        if isinstance(other, Limbs):
+            return self.a == other.a
+        return self.tolist() == other
+
+    def __ne__(self, other):
+        return not self.__eq__(other)
+
+    __hash__ = None
+
+    def __bool__(self):
+        return len(self.a) > 0
+
+    def __reduce__(self):
+        return (_limbs_from_array, (self.a,))
+
+    def __repr__(self):
+        return "Limbs(%r)" % self.tolist()
+
+
+def _limbs_from_array(a):
+    return Limbs(_a=a)
+
+
+def _is_triple(t):
+    return type(t) is list and len(t) == 3 and type(t[0]) is int and type(t[1]) is int and type(t[2]) is int
+
+
+def compact(o):
+    """Replace every list of >= 4 limb triples inside a recorded event by a Limbs object (in place where possible)."""
+    if type(o) is dict:
+        for k, v in o.items():
+            if type(v) in (list, dict):
+                o[k] = compact(v)
+        return o
+    if type(o) is list:
+        if len(o) >= 4 and all(_is_triple(t) for t in o):
+            return Limbs(o)
+        for i, v in enumerate(o):
+            if type(v) in (list, dict):
+                o[i] = compact(v)
+    return o
+
+
+def jdefault(o):
+    return o.tolist() if isinstance(o, Limbs) else str(o)
+
+
+_json_default0 = json.JSONEncoder.default
+
+
+def _json_default(self, o):          # any json.dumps(...) of an event works, wherever it is called
+    if isinstance(o, Limbs):
+        return o.tolist()
+    return _json_default0(self, o)
+
+
+json.JSONEncoder.default = _json_default
+
+
+# --------------------------------------------------------------------------------------------
 # scratch
 # --------------------------------------------------------------------------------------------
 class Scratch:
@@ -282,7 +376,11 @@ def _validate_part(scratch, part, events, trace_module, cfg, workers, timeout, t
     # the trace module is instantiated from the library path; TLC needs the root module in workdir
     shutil.copy(os.path.join(SPEC, "trace", trace_module + ".tla"), os.path.join(wd, trace_module + ".tla"))
     r = run_tlc(wd, trace_module, cfgp, workers=workers, timeout=timeout,
-                env={"TRACE_FILE": path, "TRACE_CHUNK": str(chunk)}, heap="3g")
+                env={"TRACE_FILE": path, "TRACE_CHUNK": str(chunk)}, heap=PART_HEAP)
+    try:
+        os.remove(path)                      # the part has been judged (or is re-written by the retry below)
+    except OSError:
+        pass
     if r.error and ("Overflow when computing" in r.stdout or "StackOverflowError" in r.stdout
                     or "outside the fixed-point range" in r.stdout) and _depth < 25:
         # 32-bit arithmetic of the judge cannot hold this event: set it aside (verdict "skipped.range", counted in
@@ -308,22 +406,32 @@ def _validate_part(scratch, part, events, trace_module, cfg, workers, timeout, t
     return verdicts, r
 
 
+PART_BYTES = 6 << 20          # JSON bytes per TLC process: bounds the heap a trace part needs (values are ~40x the text)
+PART_HEAP = "1500m"
+
+
 def validate_events(scratch, events, trace_module="Trace_Fn", cfg=None, workers=NCPU, timeout=3600, tag="ev",
-                    per_part=1500):
+                    per_part=4000):
     """Give recorded events to the TLC trace specification.  Returns ({event id: [failing clauses]}, stats)
     (empty list = accepted).  Every event must come back with a verdict, otherwise MachineryError.
-    JSON deserialisation inside TLC is sequential, so the events are split over several TLC processes."""
+    JSON deserialisation inside TLC is sequential and its values are large, so the events are dealt over many small TLC
+    processes (at most `workers` at a time, each with a small heap): memory stays bounded however many events there are."""
     agg = TLCResult()
     if not events:
         return {}, agg
     for i, e in enumerate(events):
         e["id"] = i + 1
     t0 = time.time()
-    nparts = max(1, min(workers, (len(events) + per_part - 1) // per_part))
+    # size estimate from a sample (serialising everything twice would double the cost)
+    step = max(1, len(events) // 400)
+    sample = events[::step]
+    avg = sum(len(json.dumps(e, separators=(",", ":"))) for e in sample) / len(sample)
+    nparts = max(1, min(workers, (len(events) + 1499) // 1500), int(avg * len(events) / PART_BYTES) + 1, (len(events) + per_part - 1) // per_part)
     parts = [events[k::nparts] for k in range(nparts)]      # round-robin: expensive events are spread over the parts
-    w = max(1, workers // len(parts))
+    conc = min(workers, len(parts))
+    w = max(1, workers // conc)
     from concurrent.futures import ThreadPoolExecutor
-    with ThreadPoolExecutor(len(parts)) as ex:
+    with ThreadPoolExecutor(conc) as ex:
         futs = [ex.submit(_validate_part, scratch, k, part, trace_module, cfg, w, timeout, tag) for k, part in enumerate(parts)]
         res = [f.result() for f in futs]
     verdicts = {}
@@ -332,9 +440,17 @@ def validate_events(scratch, events, trace_module="Trace_Fn", cfg=None, workers=
         agg.distinct += r.distinct
         agg.generated += r.generated
     agg.wall = time.time() - t0
+    agg.parts = len(parts)
     if len(verdicts) != len(events):
         raise MachineryError("trace validation: %d events, %d verdicts" % (len(events), len(verdicts)))
     return verdicts, agg
+
+
+def peak_rss_mb():
+    """Peak resident memory of this process and of its largest finished child (MB), for the evidence."""
+    import resource
+    return {"python_mb": resource.getrusage(resource.RUSAGE_SELF).ru_maxrss // 1024,
+            "largest_child_mb": resource.getrusage(resource.RUSAGE_CHILDREN).ru_maxrss // 1024}
 
 
 # --------------------------------------------------------------------------------------------
@@ -354,13 +470,13 @@ def write_evidence(pid, tier, seed, coverage, wall, violations, assumptions, lev
         ev = {"property_id": pid, "tier": tier, "seed": int(seed), "level": level, "coverage": coverage,
               "assumptions": assumptions, "wall_s": round(wall, 2), "violations": int(violations), "tree": REPO}
         with open(os.path.join(d, pid + ".json"), "w") as f:
-            json.dump(ev, f, indent=1, default=str)
+            json.dump(ev, f, indent=1, default=jdefault)
         return ev
     os.makedirs(os.path.join(VERIF, "evidence"), exist_ok=True)
     ev = {"property_id": pid, "tier": tier, "seed": int(seed), "level": level, "coverage": coverage,
           "assumptions": assumptions, "wall_s": round(wall, 2), "violations": int(violations)}
     with open(os.path.join(VERIF, "evidence", pid + ".json"), "w") as f:
-        json.dump(ev, f, indent=1, default=str)
+        json.dump(ev, f, indent=1, default=jdefault)
     return ev
 
 
@@ -369,5 +485,5 @@ def write_replay(pid, name, payload):
     os.makedirs(d, exist_ok=True)
     p = os.path.join(d, name + ".json")
     with open(p, "w") as f:
-        json.dump(payload, f, indent=1, default=str)
+        json.dump(payload, f, indent=1, default=jdefault)
     return p
